@@ -171,11 +171,23 @@ fn replace_html_char<'a>(ch: char) -> Cow<'a, str> {
         '\'' => Cow::from("&#39;"),
         '"' => Cow::from("&quot;"),
         '\0' => Cow::from(""),
+        // characters that XML 1.0 can not represent at all (not even as a character
+        // reference) are dropped
+        ch if !is_xml_char(ch) => Cow::from(""),
         _ => Cow::from(ch.to_string()),
     }
 }
 
-fn escape_html_text(s: &str) -> String {
+/// the `Char` production of XML 1.0
+fn is_xml_char(ch: char) -> bool {
+    matches!(ch,
+        '\u{9}' | '\u{A}' | '\u{D}'
+        | '\u{20}'..='\u{D7FF}'
+        | '\u{E000}'..='\u{FFFD}'
+        | '\u{10000}'..='\u{10FFFF}')
+}
+
+pub(crate) fn escape_html_text(s: &str) -> String {
     s.chars().map(replace_html_char).collect()
 }
 
